@@ -144,6 +144,7 @@ class Unit:
         self.loop_contracts = {}  # cname -> {n: text}
         self.pre_loop = {}
         self.stmt_hooks = {}
+        self.extra_includes = []
         self.extra_scope = {}
         self.contracts_header = None
         self.harness_files = []
@@ -190,6 +191,7 @@ class Unit:
             i += 1
         for stmt in flat.split(';'):
             st = stmt.strip()
+            st = re.sub(r'=\s*\{\s*\}\s*$', '', st).strip()   # default member initialiser "= {}"
             if not st or '(' in st or '{}' in st or st.startswith(('public:', 'private:', 'protected:', 'using ', 'friend ', 'template', 'enum ', 'struct ', 'union')):
                 # access specifiers may prefix a declaration
                 st2 = re.sub(r'^(public|private|protected)\s*:\s*', '', st)
@@ -216,6 +218,13 @@ class Unit:
                 if not p.accept(','):
                     break
         return members
+
+    def vector_type(self, elem):
+        """std::vector<elem> -> struct vec_<elem> { elem* data; size_t size; }  (R14; growth is done by trusted stubs)"""
+        fire('R14')
+        self.type_text.append('typedef struct vec_%s { %s* data; size_t size; } vec_%s;' % (elem, elem, elem))
+        self.ctx.type_names.add('vec_' + elem)
+        self.ctx.structs['vec_' + elem] = {'data': elem + '*', 'size': 'size_t'}
 
     def emit_struct(self, name, members, cname=None):
         cname = cname or name
@@ -247,6 +256,119 @@ class Unit:
         self.emit_struct(name, members, cname)
         return body
 
+    def struct_nested_in(self, rel, name, head, qual):
+        """like struct_nested for a struct nested in a class (e.g. time_zone::civil_lookup); enum constants are
+        registered under qual::name::X"""
+        s = self.src(rel)
+        st, body, en = s.find_block(head, 'struct ' + name)
+        self.span(rel, 'struct ' + name, s.text[st:en])
+        self.ctx.type_names.add(name)
+        self._nested(name, body, [name])
+        for k in list(self.ctx.enum_consts):
+            if k.startswith(name + '::'):
+                self.ctx.enum_consts[qual + '::' + k] = self.ctx.enum_consts[k]
+
+    def class_members(self, rel, cls, cname=None):
+        """data members of a class -> C struct (member functions, access specifiers, friends dropped: R9)"""
+        s = self.src(rel)
+        st, body, en = s.find_block(r'\bclass\s+%s\b[^{;]*\{' % cls, 'class ' + cls)
+        self.span(rel, 'class ' + cls + ' (data members)', s.text[st:en])
+        members = self.parse_member_decls(body, cls)
+        if not members:
+            raise ExtractError('class %s: no data members found' % cls)
+        fire('R9')
+        self.ctx.type_names.add(cname or cls)
+        self.emit_struct(cls, members, cname)
+        return members
+
+    def struct_nested(self, rel, name):
+        """struct with nested struct / enum / anonymous-union definitions (PosixTransition).  Nested types are
+        hoisted to file scope with the enclosing struct's name as prefix; `S::X` spellings map to `S_X`."""
+        s = self.src(rel)
+        st, body, en = s.find_block(r'\bstruct\s+%s\s*\{' % name, 'struct ' + name)
+        self.span(rel, 'struct ' + name, s.text[st:en])
+        self.ctx.type_names.add(name)
+        self._nested(name, body, [name])
+
+    def _nested(self, cname, body, scope_names, outer=None):
+        """emit typedef struct cname {...}; returns members"""
+        local_types = dict(outer or {})
+        members = {}
+        lines = []
+        i = 0
+        body = body.strip()
+        while i < len(body):
+            m = re.match(r'\s*(struct|enum|union)\s*(\w*)\s*\{', body[i:])
+            if m:
+                o = i + m.end() - 1
+                c = match_close(body, o, '{', '}')
+                inner = body[o + 1:c]
+                rest = re.match(r'\s*(\w*)\s*;', body[c + 1:])
+                after = c + 1 + rest.end()
+                kind, nm, var = m.group(1), m.group(2), rest.group(1)
+                if kind == 'enum':
+                    consts = [x.strip() for x in inner.split(',') if x.strip()]
+                    tname = '%s_%s' % (cname, nm)
+                    fire('R13')
+                    for cst in consts:
+                        self.ctx.enum_consts['%s::%s' % (scope_names[0], cst)] = ('%s_%s' % (scope_names[0], cst), tname)
+                    self.type_text.append('typedef enum { %s } %s;' % (', '.join('%s_%s' % (scope_names[0], cst) for cst in consts), tname))
+                    self.ctx.type_names.add(tname)
+                    self.ctx.type_names.add('%s::%s' % (scope_names[0], nm))
+                    local_types[nm] = tname
+                    if var:
+                        members[var] = tname
+                        lines.append('  %s %s;' % (tname, var))
+                elif kind == 'struct':
+                    tname = '%s_%s' % (cname, nm)
+                    self.ctx.type_names.add(tname)
+                    self.ctx.type_names.add('%s::%s' % (cname, nm))
+                    self._nested_with(tname, inner, scope_names, local_types)
+                    local_types[nm] = tname
+                    if var:
+                        members[var] = tname
+                        lines.append('  %s %s;' % (tname, var))
+                elif kind == 'union':
+                    um = self._members(inner, local_types)
+                    if var:
+                        raise ExtractError('named union member not in subset')
+                    lines.append('  union { %s };' % ' '.join('%s %s;' % (t, n_) for n_, t in um.items()))
+                    members.update(um)
+                i = after
+                continue
+            m = re.match(r'\s*([^;{}]+);', body[i:])
+            if not m:
+                break
+            mm = self._members(m.group(1) + ';', local_types)
+            for n_, t in mm.items():
+                lines.append('  %s %s;' % (t, n_))
+            members.update(mm)
+            i += m.end()
+        self.type_text.append('typedef struct %s {\n%s\n} %s;' % (cname, '\n'.join(lines), cname))
+        self.ctx.structs[cname] = members
+        self.ctx.type_names.add(cname)
+        return members
+
+    def _nested_with(self, cname, body, scope_names, outer_types):
+        return self._nested(cname, body, scope_names, outer_types)
+
+    def _members(self, text, local_types):
+        out = {}
+        for stmt in text.split(';'):
+            st = stmt.strip()
+            if not st:
+                continue
+            toks = st.replace('std::', '').split()
+            nm = toks[-1]
+            ty = ' '.join(toks[:-1])
+            ty = local_types.get(ty, ty)
+            if ty == 'string':
+                ty = 'vstr'
+            if ty.replace(' ', '') == 'time_point<seconds>':
+                ty = 'time_point_s'
+            out[nm] = ty
+        return out
+
     def enum_class(self, rel, name):
         s = self.src(rel)
         st, body, en = s.find_block(r'\benum\s+class\s+%s\s*\{' % name, 'enum ' + name)
@@ -257,6 +379,20 @@ class Unit:
             self.ctx.enum_consts['%s::%s' % (name, n_)] = ('%s_%s' % (name, n_), name)
         self.ctx.type_names.add(name)
         self.type_text.append('typedef enum { %s } %s;' % (', '.join('%s_%s' % (name, n_) for n_ in names), name))
+
+    def global_const(self, rel, name, ctype_hint=None):
+        """file-scope constant `const T name[...] = ...;` copied verbatim (std:: stripped)"""
+        s = self.src(rel)
+        ms = re.findall(r'^\s*((?:static\s+)?const\s+[\w:]+\s+%s\s*((?:\[[^\]]*\])*)\s*=\s*[^;]*;)' % name, s.text, flags=re.M)
+        if len(ms) != 1:
+            raise ExtractError('global constant %s: %d matches in %s' % (name, len(ms), rel))
+        txt = ms[0][0].strip().replace('std::', '')
+        self.span(rel, 'const ' + name, txt)
+        mm = re.match(r'(?:static\s+)?const\s+([\w]+)\s+%s\s*((?:\[[^\]]*\])*)' % name, txt)
+        ty = mm.group(1) + mm.group(2)
+        self.type_text.append(('static ' if not txt.startswith('static') else '') + txt)
+        self.ctx.const_exprs[name] = (name, ty)
+        return ty
 
     # ---- functions
     def parse_params(self, ptext, tagdispatch_ok=True):
@@ -389,8 +525,7 @@ class Unit:
             if p.byref:
                 ps.append('%s%s* %s' % ('const ' if p.const else '', cty, p.name))
             else:
-                q = 'const ' if (p.const and cty.endswith('*')) else ''
-                ps.append('%s%s %s' % (q, cty, p.name or '_unused'))
+                ps.append('%s %s' % (cty, p.name or '_unused'))
         return '%s %s(%s)' % (em.ctype(sig.ret) if sig.ret else 'void', sig.cname, ', '.join(ps) if ps else 'void')
 
     def translate_all(self):
@@ -418,6 +553,11 @@ class Unit:
                 raise ExtractError('%s: %s' % (sig.cname, e))
             self.report['loops'][sig.cname] = ft.loop_no
             lc = self.loop_contracts.get(sig.cname, {})
+            for n_, txt in lc.items():
+                # only opaque specification functions may be called inside a loop contract
+                for call in re.findall(r'\b([A-Za-z_]\w*)\s*\(', re.sub(r'__CPROVER_(loop_invariant|assigns|decreases|loop_entry|same_object|POINTER_OFFSET)', '', txt)):
+                    if not call.startswith('__CPROVER_uninterpreted_') and not call.isupper() and call not in ('LIFT_E', 'LIFT_R', 'sizeof') and not re.match(r'^[A-Z][A-Z0-9_]*$', call):
+                        raise ExtractError('%s: loop contract %d calls %s (only macros and opaque specification functions are allowed)' % (sig.cname, n_, call))
             for n_ in lc:
                 if n_ > ft.loop_no:
                     raise ExtractError('%s: loop contract for loop %d but only %d loops found' % (sig.cname, n_, ft.loop_no))
@@ -433,6 +573,8 @@ class Unit:
         parts.append('/* GENERATED by /verif/tools/extract.py from the working tree of the repository - do not edit */')
         parts.append('#include <stdint.h>\n#include <stddef.h>\n#include <stdbool.h>\n#include <limits.h>\n#include <string.h>\n#include <stdio.h>')
         parts.append('#include "%s"' % os.path.join(VERIF, 'stubs', 'prelude.h'))
+        for inc in self.extra_includes:
+            parts.append('#include "%s"' % inc)
         parts.extend(self.type_text)
         parts.append('/* ---- prototypes of extracted functions ---- */')
         parts.extend(self.proto_text)
@@ -458,7 +600,7 @@ class Unit:
                 if p.byref:
                     decls.append('%s%s* %s;' % ('const ' if p.const else '', cty, nm))
                 else:
-                    decls.append('%s%s %s;' % ('const ' if (p.const and cty.endswith('*')) else '', cty, nm))
+                    decls.append('%s %s;' % (cty, nm))
                 args.append(nm)
             parts.append('void h_%s(void) { %s %s(%s); }' % (sig.cname, ' '.join(decls), sig.cname, ', '.join(args)))
         parts.append('#endif')
